@@ -55,7 +55,7 @@ def run(tier):
     import json as _json
     for l in core.run_cmd([os.path.join(bindir, "ustr"), "lits"]).stdout.splitlines():
         x = _json.loads(l)
-        recs.append({"op": x["op"], "a": [], "b": x["b"], "out": x["out"], "view": "raw"})
+        recs.append({"op": x["op"], "a": x.get("a", []), "b": x["b"], "out": x["out"], "view": "raw"})
     # 3. random long operands (incl. formatted text with interior / trailing NULs for the fmt variants)
     rng = random.Random(chk.seed)
     n_rand = 300 if tier == "quick" else 5000
